@@ -30,7 +30,7 @@ func main() {
 		{Name: "leaving-wal-mode-twice-2pg-5ops", Cfg: "MC_DBFile_modeswitch.cfg", Timeout: 10 * time.Minute, MaxKeep: 0, Needs: []string{"JRmWal*2", "WEnd"}, AllCfgs: true},
 		{Name: "journal-mode-switches-2pg-5ops", Cfg: "MC_DBFile_modeswitch.cfg", Timeout: 10 * time.Minute, MaxKeep: core.Pick(args, 500, 6000)},
 		{Name: "rb-free-page-reuse-3pg-3ops", Cfg: "MC_DBFile_rb_free.cfg", Timeout: 10 * time.Minute, MaxKeep: core.Pick(args, 400, 0)},
-		{Name: "lock-page-layout-4pg", Cfg: "MC_DBFile_lock_rb.cfg", Timeout: 10 * time.Minute, MaxKeep: core.Pick(args, 3, 48), Layouts: []sim.Layout{sim.L4()}, Workers: 3, MinNs: 4},
+		{Name: "lock-page-layout-4pg", Cfg: "MC_DBFile_lock_rb.cfg", Timeout: 10 * time.Minute, MaxKeep: core.Pick(args, 3, 48), Layouts: []sim.Layout{sim.L4()}, Workers: 2, MinNs: 4},
 		{Name: "rb-never-written-pages-4pg-3ops", Cfg: "MC_DBFile_holes.cfg", Timeout: 10 * time.Minute, MaxKeep: core.Pick(args, 700, 0), Layouts: []sim.Layout{sim.L0(512), sim.L0(4096)}},
 		// a committing transaction whose publication fails (LTX rename refused): SQLite rolls it back
 		{Name: "rb-commit-fails-at-publication-3pg-3ops", Cfg: "MC_DBFile_failcommit.cfg", Timeout: 10 * time.Minute, MaxKeep: core.Pick(args, 400, 0), Need: "JFinalFail"},
